@@ -53,9 +53,9 @@ func init() {
 		CaseTimeoutS: 600,
 		Floor: func(tier string) int {
 			if tier == "thorough" {
-				return 600
+				return 400
 			}
-			return 30
+			return 20
 		},
 		Cases: func(tier string, seed uint64) int {
 			if tier == "thorough" {
@@ -91,7 +91,6 @@ var o = {}; Object.defineProperty(o, "x", {get: function(){ return 1 }, configur
 r.push(typeof _ === "function" ? _.map([1, 2], function(x){ return x + 1 }).join() : "no-underscore");
 log(r.join("|"));
 `
-
 
 // syntaxHeavy executes every syntactic form whose evaluation keeps per-call or
 // per-evaluation tables (parameter maps, hoisted declaration lists, labels,
@@ -180,6 +179,18 @@ func touchProgram(r *gen.Rand) string {
 	return b.String()
 }
 
+// underscoreHeavy drives the library that the registry hands to every runtime
+// (shared source text, per-runtime evaluation).
+const underscoreHeavy = `
+var u = [];
+u.push(_.map([1, 2, 3], function(x){ return x * 2 }).join(), _.reduce([1, 2, 3], function(a, b){ return a + b }, 0), _.filter([1, 2, 3, 4], function(x){ return x % 2 }).join());
+u.push(_.uniq([1, 1, 2, 3, 3]).join(), _.sortBy([3, 1, 2], function(x){ return -x }).join(), _.keys({a: 1, b: 2}).join(), _.values({a: 1, b: 2}).join());
+u.push(_.template("hello <%= name %>")({name: "w"}), _.isEqual({a: [1, {b: 2}]}, {a: [1, {b: 2}]}), _.range(4).join(), _.flatten([1, [2, [3]]]).join(), _.pluck([{n: 1}, {n: 2}], "n").join());
+_.mixin({twice: function(x){ return x * 2 }}); u.push(_.twice(4), _.uniqueId("p"), _.uniqueId("p"), _.escape("<a&b>"), _.chain([1, 2, 3]).map(function(x){ return x + 1 }).value().join());
+_.templateSettings.tag = (_.templateSettings.tag || 0) + 1; _.own = (_.own || 0) + 1; u.push(_.templateSettings.tag, _.own);
+log(u.join("|"));
+`
+
 func generate(r *gen.Rand, i int) Input {
 	modes := []string{"fresh", "copy", "script", "program", "compile", "underscore"}
 	in := Input{Mode: modes[i%len(modes)], N: []int{2, 8, 32}[r.Intn(3)], Reps: 2}
@@ -190,6 +201,10 @@ func generate(r *gen.Rand, i int) Input {
 	for k := 0; k < np; k++ {
 		if in.Mode == "copy" {
 			in.Progs = append(in.Progs, touchProgram(r)+heavy)
+			continue
+		}
+		if in.Mode == "underscore" {
+			in.Progs = append(in.Progs, underscoreHeavy+heavy)
 			continue
 		}
 		if (in.Mode == "script" || in.Mode == "program") && r.Chance(1, 2) || r.Chance(1, 4) {
@@ -317,12 +332,13 @@ func deepHash(v interface{}) uint64 {
 			w("]")
 		case reflect.Map:
 			keys := v.MapKeys()
-			ks := make([]string, len(keys))
-			for i, k := range keys {
-				ks[i] = fmt.Sprint(k)
+			sort.Slice(keys, func(i, j int) bool { return fmt.Sprint(keys[i]) < fmt.Sprint(keys[j]) })
+			w(fmt.Sprintf("map%d{", v.Len()))
+			for _, k := range keys {
+				w(fmt.Sprint(k) + "=>")
+				walk(v.MapIndex(k), depth+1)
 			}
-			sort.Strings(ks)
-			w(fmt.Sprintf("map%d%v;", v.Len(), ks))
+			w("}")
 		case reflect.String:
 			w(fmt.Sprintf("%q;", v.String()))
 		case reflect.Bool:
@@ -410,9 +426,6 @@ func checkOne(c *run.Ctx, in Input) {
 		return
 	}
 	prog := func(g int) string { return in.Progs[g%len(in.Progs)] }
-	if in.Mode == "underscore" {
-		// underscore is registered process-wide by the import above: every New() runs it
-	}
 	// sequential baseline on fresh runtimes (copy mode: on copies of a template built the same way)
 	mkTemplate := func() *otto.Otto {
 		t := otto.New()
@@ -483,6 +496,18 @@ func checkOne(c *run.Ctx, in Input) {
 		got := make([]result, in.N)
 		var wg sync.WaitGroup
 		start := make(chan struct{})
+		// even repetitions: all runtimes are created (concurrently) first and then run
+		// together; odd repetitions: creation of one overlaps execution of another
+		var ready sync.WaitGroup
+		if rep%2 == 0 {
+			ready.Add(in.N)
+		}
+		barrier := func() {
+			if rep%2 == 0 {
+				ready.Done()
+				ready.Wait()
+			}
+		}
 		for g := 0; g < in.N; g++ {
 			wg.Add(1)
 			go func(g int) {
@@ -497,12 +522,14 @@ func checkOne(c *run.Ctx, in Input) {
 				case "compile":
 					vm, l = newLogged()
 					if s, err := vm.Compile(fmt.Sprintf("g%d.js", g), prog(g)); err == nil {
+						barrier()
 						got[g] = execute(vm, l, s)
 						return
 					}
 				default:
 					vm, l = newLogged()
 				}
+				barrier()
 				got[g] = execute(vm, l, source(g))
 			}(g)
 		}
